@@ -280,6 +280,8 @@ class VM:
         """Run compiled bytecode and return result."""
         if self.start_time is None:
             self.start_time = time.monotonic()
+        else:
+            self._poll_deadline()
 
         # Create initial call frame
         frame = CallFrame(
@@ -296,6 +298,17 @@ class VM:
             return self._execute()
         finally:
             self.host_depth[0] -= 1
+
+    def _poll_deadline(self) -> None:
+        """Read the clock now.
+
+        An interpreter that joins a running evaluation (eval, Function, a sort
+        comparator) starts counting instructions at zero: a script that keeps
+        starting such interpreters, each for fewer instructions than the
+        polling period, would never reach the periodic check of any of them.
+        """
+        if self.time_limit and time.monotonic() - self.start_time > self.time_limit:
+            raise TimeLimitError("Execution timeout")
 
     def _check_limits(self) -> None:
         """Check memory and time limits."""
